@@ -24,16 +24,17 @@ import (
 )
 
 type caseResult struct {
-	Idx   int       `json:"i"`
-	Start bool      `json:"start,omitempty"` // marker line: the case has been started
-	Line  string    `json:"line,omitempty"`  // request line for the model driver
-	Packs []string  `json:"packs,omitempty"`
-	State string    `json:"state,omitempty"`
-	Finds []finding `json:"finds,omitempty"`
-	NPack int       `json:"npack,omitempty"`
-	Drops int       `json:"drops,omitempty"`
-	Incon bool      `json:"inconclusive,omitempty"` // a time bound could not be judged: the machine was starved
-	Skip  string    `json:"skipped,omitempty"`      // not run: a hang of this scenario flavour has already been established
+	Idx    int       `json:"i"`
+	Start  bool      `json:"start,omitempty"` // marker line: the case has been started
+	Line   string    `json:"line,omitempty"`  // request line for the model driver
+	Packs  []string  `json:"packs,omitempty"`
+	State  string    `json:"state,omitempty"`
+	Finds  []finding `json:"finds,omitempty"`
+	NPack  int       `json:"npack,omitempty"`
+	Drops  int       `json:"drops,omitempty"`
+	Incon  bool      `json:"inconclusive,omitempty"` // a time bound could not be judged: the machine was starved
+	Skip   string    `json:"skipped,omitempty"`      // not run: a hang of this scenario flavour has already been established
+	Probes []probe   `json:"probes,omitempty"`       // wire-format questions for the model, with the implementation's answers
 }
 
 type indexedCase struct {
@@ -44,6 +45,14 @@ type indexedCase struct {
 // runCase executes one case on the implementation (in the current process).
 func runCase(c *Case) *caseResult {
 	e := newEvalCtx(c.allSpecs())
+	r := runCase0(c, e)
+	if c.Kind != "getinstance" {
+		r.Probes = e.probes
+	}
+	return r
+}
+
+func runCase0(c *Case, e *evalCtx) *caseResult {
 	switch c.Kind {
 	case "det":
 		d := runDet(c, e)
